@@ -62,7 +62,9 @@ func varintLen(x int64) int {
 }
 
 // RecLen is the encoded length of a plain record.
-func RecLen(klen, vlen int) int { return 1 + varintLen(int64(klen)) + varintLen(int64(vlen)) + 1 + klen + vlen }
+func RecLen(klen, vlen int) int {
+	return 1 + varintLen(int64(klen)) + varintLen(int64(vlen)) + 1 + klen + vlen
+}
 
 // VlenForEnd returns a value length such that a single-chunk record written at
 // file offset off ends at file offset end (or -1 if impossible).
